@@ -451,6 +451,11 @@ def judge_declarative(case, ctx, prefix):
     if kind == 'single_frequency_time_domain':
         sol['w'] = w
         sol['precision'] = p = rng.randint(3, 5)
+    if rng.random() < 0.4:
+        # keys the chosen solution kind does not take (options of another kind, a remark): they are ignored, the kind's own options stay in force
+        for k_, v_ in rng.sample([('hertz', True), ('sin', True), ('comment', 'lab 3'), ('peak', False)], 2):
+            sol.setdefault(k_, v_)
+        ctx.count('declarative_with_foreign_solution_keys')
     desc = {'unit': rng.choice([3, 4]), 'elements': els, 'solution': sol}
     if rng.random() < 0.4:
         desc['light_lamps'] = True                      # colours the lamp symbols by their power; the numbers must not notice
